@@ -104,6 +104,9 @@ pub struct Expect {
     pub own: Vec<String>,
     /// one-syllable ranges: the phrases held for the layout's alternative syllables
     pub alt: Vec<String>,
+    /// a strictly longer range on the same side of the cursor, inside the break points `init` respects,
+    /// for which a layer holds a phrase (legitimate after Down/Space cycling, not right after opening)
+    pub longer: Option<(usize, usize)>,
 }
 
 /// the state section of a snapshot, decoded for an open list
@@ -171,6 +174,16 @@ pub fn selections(snap: &str) -> Vec<(usize, usize, bool, String)> {
     }
     out.sort();
     out
+}
+
+/// gap kinds of the pre-edit buffer (`B` begin, `K` break, `G` glue, `N` normal), one per symbol
+pub fn gaps(snap: &str) -> Vec<char> {
+    let t = com_tokens(snap);
+    let nstack: usize = t[1].parse().unwrap();
+    let n: usize = t[2 + nstack].parse().unwrap();
+    let i = 3 + nstack + n;
+    let ngap: usize = t[i].parse().unwrap();
+    t[i + 1..i + 1 + ngap].iter().map(|g| g.chars().next().unwrap()).collect()
 }
 
 pub fn stack_len(snap: &str) -> usize {
